@@ -969,7 +969,17 @@ func (sc *scenario) classifyErr(err error) string {
 				mentions = false
 			}
 		}
-		return fmt.Sprintf("unsat args=%s inputs=%s convs=%s mentions=%v", strings.Join(as, ","), strings.Join(is, ","), strings.Join(cs, ","), mentions)
+		// the text itself, with the names only the run knows (Func.Name() of the target and of every listed converter)
+		var cn []string
+		for _, c := range unsat.Converters {
+			cn = append(cn, fmt.Sprintf("%d:%s", sc.funcIDOf(c), e2s(c.Name())))
+		}
+		fname := "~"
+		if unsat.Func != nil {
+			fname = e2s(unsat.Func.Name())
+		}
+		return fmt.Sprintf("unsat args=%s inputs=%s convs=%s mentions=%v fname=%s cnames=%s msg=%s", strings.Join(as, ","), strings.Join(is, ","),
+			strings.Join(cs, ","), mentions, fname, strings.Join(cn, ";"), e2s(msg))
 	case errors.As(err, &e0):
 		if e0 == nil {
 			return "e0 typednil"
